@@ -166,8 +166,10 @@ func decodeUnicode(s *Stream, p unsafe.Pointer) (unsafe.Pointer, error) {
 	unicodeLen := int64(len(unicode))
 	s.buf = append(append(s.buf[:s.cursor-1], unicode...), s.buf[s.cursor+offset:]...)
 	unicodeOrgLen := offset - 1
-	s.length = s.length - (backSlashAndULen + (unicodeOrgLen - unicodeLen))
+	removed := backSlashAndULen + (unicodeOrgLen - unicodeLen)
+	s.length = s.length - removed
 	s.cursor = s.cursor - backSlashAndULen + unicodeLen
+	s.offset += removed // the window got shorter, the position in the input did not change
 	return pp, nil
 }
 
@@ -205,6 +207,7 @@ RETRY:
 	s.buf = append(s.buf[:s.cursor-1], s.buf[s.cursor:]...)
 	s.length--
 	s.cursor--
+	s.offset++ // the window got shorter, the position in the input did not change
 	p = s.bufptr()
 	return p, nil
 }
